@@ -60,13 +60,18 @@ let gen tk =
     let ch = rep kch (fun () -> let v = nnat tk in let mx = next tk in let mX = next tk in let my = next tk in let mY = next tk in
                                 (v, { bminx = nn mx; bmaxx = nn mX; bminy = nn my; bmaxy = nn mY })) in
     (cv, pad, mem, ch)) in
+  (* trailing section (absent in old case lines): fixed-rectangle clusters (clusterVarId, rectangle index) *)
+  let nfix = if tk.p < Array.length tk.t then next tk else 0 in
+  let fixes = rep nfix (fun () -> let cv = nnat tk in let ri = nnat tk in (cv, ri)) in
   let st = run_ops exg cex ops in
   List.iter (fun d ->
     print_cs "N" (gen_nonoverlap d nv st rects);
-    List.iter (fun (cv, pad, mem, ch) -> print_cs "C" (GOk (gen_containment d cv pad mem rects ch))) conts) [DX; DY]
+    List.iter (fun (cv, pad, mem, ch) -> print_cs "C" (GOk (gen_containment d cv pad mem rects ch))) conts;
+    List.iter (fun (cv, ri) -> print_cs "F" (GOk (gen_fixed_rect d cv ri rects))) fixes) [DX; DY]
 
 (* check mode input: tolnum tolden den, n rects (x X y Y over den), npairs pairs (i j), nbox box pairs (kA A.. kB B..);
-   output: bits for the node pairs, bits for the box pairs *)
+   nfx fixed-rectangle clusters (container index, padding over den, members);
+   output: bits for the node pairs, bits for the box pairs, bits for the fixed-rectangle clusters (all members inside) *)
 let check tk =
   let tn = next tk in let td = next tk in let tol = q_of tn td in
   let den = next tk in
@@ -90,11 +95,22 @@ let check tk =
     let kb = next tk in let bb = rep kb (fun () -> nnat tk) in
     Buffer.add_char b (if boxes_sepb tol rects a bb then '1' else '0')
   done;
+  (* fixed-rectangle clusters: nfx (container padx padX pady padY (over den) k member*k): members inside the container rectangle *)
+  Buffer.add_string b " F";
+  let nf = if tk.p < Array.length tk.t then next tk else 0 in
+  for _ = 1 to nf do
+    let ci = nnat tk in
+    let px = next tk in let pX = next tk in let py = next tk in let pY = next tk in
+    let pad = { bminx = q_of px den; bmaxx = q_of pX den; bminy = q_of py den; bmaxy = q_of pY den } in
+    let k = next tk in let mem = rep k (fun () -> nnat tk) in
+    Buffer.add_char b (if members_inside_rectb tol pad rects ci mem then '1' else '0')
+  done;
   Buffer.add_string b "\n"; print_string (Buffer.contents b)
 
 (* vars mode: the layout line of harness/c08_no.cpp (n rects | groups | clusters | user constraints | edges ideal mode); prints
    per dimension the model's variable layout (V), the user constraints' separation constraints (U) and the separation
-   constraints of all cluster containment constraints (K), variables shown by creator tag (see the harness). *)
+   constraints of all cluster containment constraints (K) and of the fixed-rectangle clusters (F), variables shown by creator
+   tag (see the harness). *)
 let dim_of n = if n = 0 then DX else DY
 let parse_cc tk =
   match next tk with
@@ -121,11 +137,14 @@ let vars tk =
   let _ = rep nexg (fun () -> let k = next tk in rep k (fun () -> next tk)) in
   let ncl = next tk in
   let nn v = q16 (max v 0) in
+  let fixed = ref [] and ci = ref 0 in
   let cls = Array.of_list (rep ncl (fun () ->
     let parent = next tk in
+    let rect = next tk in
     let px = next tk in let pX = next tk in let py = next tk in let pY = next tk in
     let mx = next tk in let mX = next tk in let my = next tk in let mY = next tk in
     let k = next tk in let nodes = rep k (fun () -> nnat tk) in
+    fixed := !fixed @ (if rect >= 0 then [(!ci, rect)] else []); incr ci;
     (parent, { bminx = nn px; bmaxx = nn pX; bminy = nn py; bmaxy = nn pY },
      { bminx = nn mx; bmaxx = nn mX; bminy = nn my; bmaxy = nn mY }, nodes))) in
   let ncc = next tk in
@@ -163,6 +182,12 @@ let vars tk =
     let ks = if flat then [] else List.concat_map snd (containments d (nat_of_int n) root rects) in
     Buffer.add_string b (Printf.sprintf "K %d" (List.length ks));
     List.iter (fun c -> Buffer.add_string b (Printf.sprintf " %s %s %s" (tg c.sl) (tg c.sr) (str_q c.sgap))) ks;
+    Buffer.add_char b '\n';
+    (* fixed-rectangle clusters: the equalities generated from the STORED cluster variable ids *)
+    let fx = List.map (fun (c, r) -> (nat_of_int c, nat_of_int r)) !fixed in
+    let fs = if flat then [] else List.concat_map snd (fixed_rect_constraints d (nat_of_int n) root fx rects) in
+    Buffer.add_string b (Printf.sprintf "F %d" (List.length fs));
+    List.iter (fun c -> Buffer.add_string b (Printf.sprintf " %s %s %s %d" (tg c.sl) (tg c.sr) (str_q c.sgap) (if c.seqy then 1 else 0))) fs;
     Buffer.add_char b '\n';
     print_string (Buffer.contents b)) [DX; DY]
 
